@@ -2,8 +2,8 @@
 from corr import corr_assemble, corr_terms, corr_ghost
 import solversearch as SS
 
-MODULES = ["PyFV.Props.C07", "PyFV.Props.GenEq", "PyFV.Props.GenEqUpw"]
-TRANSLATORS = {"T-num": "python3 harness/translate/tnum.py lean/PyFV/Gen/Stencils.lean", "T-upw": "python3 harness/translate/tupw.py lean/PyFV/Gen/StencilsUpw.lean"}
+MODULES = ["PyFV.Props.C07", "PyFV.Props.GenEq", "PyFV.Props.GenEqUpw", "PyFV.Props.GenEqAsm"]
+TRANSLATORS = {"T-num": "python3 harness/translate/tnum.py lean/PyFV/Gen/Stencils.lean", "T-upw": "python3 harness/translate/tupw.py lean/PyFV/Gen/StencilsUpw.lean", "T-asm": "python3 harness/translate/tasm.py lean/PyFV/Gen/AsmGen.lean"}
 
 
 def corr(rng, tier):
@@ -14,6 +14,8 @@ def corr(rng, tier):
 
 def search(rng, tier, broken, cases):
     S = SS.search_c07(rng, 108 if tier == "quick" and not broken else 1620)
+    import implsearch as _IS
+    _IS.refused_then_retry(S, "C07", rng, 9 if tier == "quick" and not broken else 54)
     return S.violations, S.stats()
 
 
